@@ -805,6 +805,17 @@ coap_free_context_lkd(coap_context_t *context) {
   coap_session_t *sp, *rtmp;
 
   SESSIONS_ITER_SAFE(context->sessions, sp, rtmp) {
+    if (sp->ref > 1) {
+      /*
+       * Everything in the library that can hold a reference (observers,
+       * send queue, async entries) has gone by now, so these are references
+       * the application did not release.  The session cannot outlive its
+       * context: drop them instead of leaking the session.
+       */
+      coap_log_warn("***%s: session still referenced (%u) when context freed\n",
+                    coap_session_str(sp), sp->ref);
+      sp->ref = 1;
+    }
     coap_session_release_lkd(sp);
   }
 #endif /* COAP_CLIENT_SUPPORT */
